@@ -153,14 +153,12 @@ Proof.
   destruct ao as [idx| |].
   - destruct (allocate_free _ _ _ W Ea) as (Hidx & Hfree & _).
     set (s1 := with_next s nx).
-    set (s2 := match map with Some m => with_maps s1 (aset idx m (v_maps s1)) | None => s1 end).
-    assert (W2 : wf s2).
-    { unfold s2. destruct map; [apply wf_with_maps|]; apply wf_with_next; assumption. }
-    assert (Hfree2 : aget idx (v_sb s2) = None).
-    { unfold s2, s1. destruct map; cbn; exact Hfree. }
+    set (s2 := with_maps s1 (match map with Some m => aset idx m (v_maps s1) | None => adel idx (v_maps s1) end)).
+    assert (W2 : wf s2) by (unfold s2; apply wf_with_maps, wf_with_next; assumption).
+    assert (Hfree2 : aget idx (v_sb s2) = None) by exact Hfree.
     destruct (insert_mount s2 bid (root_entry_of a) idx p) as [s3 r3] eqn:Ei.
     pose proof (insert_mount_wf _ _ _ _ _ _ _ W2 Hidx Hfree2 Ei) as W3.
-    destruct r3; intros H; inversion H; subst; exact W3.
+    destruct r3; intros H; inversion H; subst; try exact W3. apply wf_with_maps. exact W3.
   - intros H; inversion H; subst. apply wf_with_next; assumption.
   - intros H; inversion H; subst. apply wf_with_next; assumption.
 Qed.
